@@ -208,7 +208,7 @@ fn symbols_and_comment(rng: &mut Rng, d: &mut Doc, k: &Counts) {
             b"\n",
             b"\xc3\xa4 utf8 \xe2\x82\xac\nc\ni0 x\n",
         ];
-        d.tok(TokKind::Text, *rng.pick(&texts));
+        d.tok(TokKind::AigComment, *rng.pick(&texts));
     }
 }
 
